@@ -11,6 +11,7 @@ package server
 //     dispatchConnection (the client uses InsecureSkipVerify); the tap sits on the plaintext
 
 import (
+	"sync/atomic"
 	"bufio"
 	"bytes"
 	"crypto/ecdsa"
@@ -466,7 +467,9 @@ func vfC06Connect(srv *vfC06Server, cdn bool) *vfC06Link {
 		return l
 	}
 	tc := tls.Server(b, &tls.Config{Certificates: []tls.Certificate{vfC06SelfSigned()}})
-	l.tap = &vfC06Tap{Conn: tc}
+	// what a CDN edge hands to the origin arrives in whatever pieces TCP makes of it: the last 0..4 bytes of the
+	// upgrade request's header are delivered by a read of their own (0 = the header in one piece)
+	l.tap = &vfC06Tap{Conn: &vfC06Seg{Conn: tc, tail: int(atomic.AddUint32(&vfC06SegCounter, 1) % 5)}}
 	go func() {
 		defer close(l.done)
 		if err := tc.Handshake(); err != nil {
@@ -476,6 +479,49 @@ func vfC06Connect(srv *vfC06Server, cdn bool) *vfC06Link {
 		dispatchConnection(l.tap, srv.sta)
 	}()
 	return l
+}
+
+var vfC06SegCounter uint32
+
+// vfC06Seg delivers the HTTP header that opens the connection in two pieces: everything but its last `tail`
+// bytes, then the rest; later reads pass through
+type vfC06Seg struct {
+	net.Conn
+	tail   int
+	phase  int
+	pend   []byte
+	header []byte
+}
+
+func (c *vfC06Seg) Read(p []byte) (int, error) {
+	if c.phase == 0 {
+		c.phase = 1
+		if c.tail > 0 {
+			buf := make([]byte, 4096)
+			for !bytes.Contains(c.header, []byte("\r\n\r\n")) && len(c.header) < 60000 {
+				n, err := c.Conn.Read(buf)
+				c.header = append(c.header, buf[:n]...)
+				if err != nil {
+					break
+				}
+			}
+			c.pend = c.header
+		}
+	}
+	if len(c.pend) > 0 {
+		// first everything but the last `tail` bytes (in as many reads as the caller's buffers need), then the tail
+		k := len(c.pend)
+		if k > c.tail {
+			k -= c.tail
+		}
+		if k > len(p) {
+			k = len(p)
+		}
+		n := copy(p, c.pend[:k])
+		c.pend = c.pend[n:]
+		return n, nil
+	}
+	return c.Conn.Read(p)
 }
 
 // the `hidden` header of the HTTP request the server saw; the 60-byte payload of the first
